@@ -31,7 +31,16 @@ var verRE = regexp.MustCompile(`^[0-9]+\.[0-9]+$`)
 
 func genCmd(c *ev.Case) (string, string) {
 	r := c.Rand
-	switch r.Intn(15) {
+	switch r.Intn(16) {
+	case 14:
+		// only the ASCII space separates legacy tokens: a tab, line feed, NBSP or em space inside a value is part of it
+		odd := []string{"\t", "\n", "\u00a0", "\u2003", "\r", "\v", "\u2028"}[r.Intn(7)]
+		host := gen.Ident(r, 3) + odd + []string{"HardKey=true", "req=root@evil", gen.Ident(r, 4), "IFVer=9"}[r.Intn(4)]
+		user := gen.Ident(r, 4)
+		if r.Intn(3) == 0 {
+			user = gen.Ident(r, 2) + odd + gen.Ident(r, 2)
+		}
+		return fmt.Sprintf("IFVer=%d SSHClientVersion=8.%d req=%s@%s", r.Intn(7), r.Intn(10), user, host), "legacy-odd-spaces"
 	case 13:
 		// legacy attribute names are exact: look-alikes in another case are just extended attributes
 		ver := []string{"sshClientVersion", "SSHCLIENTVERSION", "sshclientversion", "SshClientVersion"}
@@ -70,11 +79,11 @@ func genCmd(c *ev.Case) (string, string) {
 		return []string{"null", " null", "true", "false", "0", "-1.5e3", `""`, `"x"`, "[]", "[null]", `[{"username":"u"}]`, "{}", `{"a":{}}`}[r.Intn(13)], "json-other"
 	case 7:
 		// objects with wrong types / odd versions
-		v := []string{`"8.1"`, `"08.001"`, `"65535.65535"`, `"65536.1"`, `"8.65537"`, `"99999999999999999999.1"`, `"8"`, `"8.1.2"`, `" 8.1"`, `"8.1 "`, `"-1.0"`, `"+8.1"`, `"８.１"`, `""`, `8.1`, `null`, `"1e1.0"`, `"0x8.1"`, `"811"`, `"8x1"`, `"8-1"`, `"1 2"`, `"12345"`, `"8,1"`}[r.Intn(24)]
+		v := []string{`"8.1"`, `"08.001"`, `"65535.65535"`, `"65536.1"`, `"8.65537"`, `"99999999999999999999.1"`, `"8"`, `"8.1.2"`, `" 8.1"`, `"8.1 "`, `"-1.0"`, `"+8.1"`, `"８.１"`, `""`, `8.1`, `null`, `"1e1.0"`, `"0x8.1"`, `"811"`, `"8x1"`, `"8-1"`, `"1 2"`, `"12345"`, `"8,1"`, `"010.7"`, `"8.010"`, `"0017.0100"`, `"00.00"`, `"0777.0777"`, `"09.08"`}[r.Intn(30)]
 		u := []string{`"u"`, `""`, `null`, `1`, `"` + "root" + `"`}[r.Intn(5)]
 		return fmt.Sprintf(`{"username":%s,"hostname":"h","sshClientVersion":%s,"ifVer":7}`, u, v), "json-versions"
 	case 8:
-		v := []string{"8.1", "08.001", "65535.65535", "65536.1", "8.65537", "99999999999999999999.1", "8", "8.1.2", "-1.0", "+8.1", "", "x", "811", "8x1", "8-1", "12345", "8,1", "8_1"}[r.Intn(18)]
+		v := []string{"8.1", "08.001", "65535.65535", "65536.1", "8.65537", "99999999999999999999.1", "8", "8.1.2", "-1.0", "+8.1", "", "x", "811", "8x1", "8-1", "12345", "8,1", "8_1", "010.7", "8.010", "0017.0100", "00.00", "0777.0777", "09.08"}[r.Intn(24)]
 		return fmt.Sprintf("IFVer=6 SSHClientVersion=%s req=%s@%s", v, gen.Ident(r, 4), gen.Ident(r, 5)), "legacy-versions"
 	case 9:
 		return "", "empty"
